@@ -302,7 +302,16 @@ def loser_whole_run(chk, sseed):
         replay = {"scenario_seed": sseed, "lines": w.lines, "autoclean": autoclean}
         code = LOSER_CODE.format(repo=os.environ.get("VERIF_REPO", "/repo"), cfg=w.sb.config_path)
 
+        locked = [False]
+
         def on_fs(idx, op, paths):
+            if op == "flock":
+                # (the hook fires before the call: at this event the holder does not hold the lock yet - a process started now
+                # would rightly get in, and would then try to mirror over a network that does not exist)
+                locked[0] = True
+                return
+            if not locked[0]:
+                return
             rel = os.path.relpath(paths[0], w.sb.base)
             in_window = ".apt_mirror_" in rel and window[0] > 0 and rng.random() < 0.2
             if (idx not in points and not in_window) or _LOSER_HANGS[0]:
